@@ -703,7 +703,11 @@ def k4_padding(ctx):
     with ctx.shadow(m, bytes=S.sym_bytes):
         padded = m._pkcs7_pad(data, 16)
         ctx.require(len(padded) % 16 == 0 and 1 <= len(padded) - n <= 16, "pad-length", n=n, got=len(padded))
-        back = m._pkcs7_unpad(padded, 16)
+        try:
+            back = m._pkcs7_unpad(padded, 16)
+        except Exception as e:
+            ctx.fail("valid-padding-rejected", n=n, exc=type(e).__name__)
+            return
         r = (back == data)
         ctx.require(r if not isinstance(r, S.SymBool) else r.z, "unpad-pad-roundtrip", n=n)
         # arbitrary (non-empty, block-aligned) plaintext tail
@@ -756,11 +760,19 @@ def k4_wrapper(ctx):
                        _aes_decrypt_block=lambda b, rk: buf.apply("D", "E", b, rk),
                        _get_round_keys=lambda key: "k")
     with ctx.shadow(m, **shadows), ctx.stub(m, secrets=Secrets):
-        enc = cl["_cryptaes_encrypt"](Obj(), data)
+        try:
+            enc = cl["_cryptaes_encrypt"](Obj(), data)
+        except Exception as e:
+            ctx.fail("wrapper-encrypt-raised", n=n, exc=type(e).__name__)
+            return
         ctx.require(len(enc) == 16 + 16 * (n // 16 + 1), "wrapper-length", n=n, got=len(enc))
         r = (enc[:16] == iv)
         ctx.require(r if not isinstance(r, S.SymBool) else r.z, "iv-not-prepended")
-        dec = cl["_cryptaes_decrypt"](Obj(), enc)
+        try:
+            dec = cl["_cryptaes_decrypt"](Obj(), enc)
+        except Exception as e:
+            ctx.fail("wrapper-roundtrip", n=n, exc=type(e).__name__)
+            return
         r = (dec == data)
         ctx.require(r if not isinstance(r, S.SymBool) else r.z, "wrapper-roundtrip", n=n)
         if not ctx.concrete:
